@@ -50,6 +50,8 @@ structure Info where
   key : Nat
   k : Int              -- start sample (t0 = queue t0 + k/fs)
   dur : Int
+  len : Nat := 0       -- ghost: number of samples of the waveform set up for this trial
+  delay : Int := 0     -- ghost: inter-trial delay drawn for this trial (samples)
   deriving DecidableEq, Repr, Inhabited
 
 /-- `_source`: for an array the leftover `source[off:]`, for a generator its offset -/
@@ -197,7 +199,7 @@ def nextTrial (s : QState) : Except Err (Option QState) :=
           | none => .error .stopIteration
           | some d =>
             if d < 0 then .error .valueError else
-            let info : Info := { uid := s.added.length, key := key, k := s.samples, dur := e.dur }
+            let info : Info := { uid := s.added.length, key := key, k := s.samples, dur := e.dur, len := e.len, delay := d }
             .ok (some { s with
               data := s.data.modify key (fun e => { e with dpos := e.dpos + 1 }),
               source := some { key := key, off := 0, len := e.len, gen := e.gen },
